@@ -7,9 +7,9 @@ from typing import Any, Dict, List, Optional, Set
 class Injected(Exception):
     """The only exception type the harness injects on purpose."""
 
-    def __init__(self, tag: str) -> None:
-        super().__init__(tag)
-        self.tag = tag
+    def __init__(self, *args: object) -> None:
+        super().__init__(*args)
+        self.tag = str(args[-1]) if args else ""
 
 
 class Fatal(BaseException):
